@@ -7,7 +7,7 @@ import (
 )
 
 type slot struct {
-	kind byte // 'v' vector, 'm' matrix, 's' scalar, 'l' index/value list, 'o' list order, 'E' epsilon of Equals, 0 none
+	kind byte // 'v' vector, 'm' matrix, 's' scalar, 'l' index/value list, 'o' list order, 'E' epsilon of Equals, 'W' walk program of a joint iterator (r = size of the index space), 0 none
 	r, c int  // vector: r = n
 }
 
@@ -144,6 +144,8 @@ func patterns(s slot, stor byte, level int, varM bool) []string {
 		return []string{"asc", "desc"}
 	case 'E':
 		return []string{"1e-08", "0.75", "0"}
+	case 'W':
+		return walkPrograms(s.r)
 	case 'l', 'L':
 		stor = s.kind
 	}
@@ -259,12 +261,29 @@ var scalarSlot = slot{kind: 's'}
 
 type famBuilder struct {
 	fams []*family
+	// modes of add: lifeLen > 0: only the operations with a container receiver, each with
+	// every receiver life of 1..lifeLen steps; conc: only the operations that have a
+	// concrete method, called through it
+	lifeLen int
+	conc    bool
 }
 
 func (fb *famBuilder) add(op string, dims []int, levels [3]int, types []*tinfo, varM bool) *family {
 	f := &family{op: op, dims: dims, slots: opSlots(op, dims), levels: levels, types: types, varM: varM, histSlot: -1}
 	f.stor = defaultStor(f.slots)
 	f.ctOp = op == "VasConst" || op == "VnewConst"
+	if fb.lifeLen > 0 {
+		if k := f.slots[0].kind; k != 'v' && k != 'm' {
+			return f // not part of the enumeration
+		}
+		f.lifeLen = fb.lifeLen
+	}
+	if fb.conc {
+		if _, ok := concName[op]; !ok {
+			return f
+		}
+		f.conc = true
+	}
 	fb.fams = append(fb.fams, f)
 	return f
 }
@@ -285,6 +304,10 @@ func opSlots(op string, d []int) [3]slot {
 		return [3]slot{vecSlot(d[0]), vecSlot(d[0]), {kind: 'E'}}
 	case "MequalsE":
 		return [3]slot{matSlot(d[0], d[1]), matSlot(d[0], d[1]), {kind: 'E'}}
+	case "VjointWalk", "VcjointWalk":
+		return [3]slot{vecSlot(d[0]), vecSlot(d[0]), {kind: 'W', r: d[0]}}
+	case "MjointWalk":
+		return [3]slot{matSlot(d[0], d[1]), matSlot(d[0], d[1]), {kind: 'W', r: d[0] * d[1]}}
 	case "VasConst":
 		return [3]slot{none, vecSlot(d[0]), none}
 	case "VnewConst":
@@ -514,6 +537,19 @@ func (fb *famBuilder) mequalsE(r, c, level int, types []*tinfo) {
 	fb.add("MequalsE", []int{r, c}, [3]int{level, level, 0}, types, false)
 }
 
+// ---- joint-iterator traversals (joint.go) ----------------------------------------------
+
+func (fb *famBuilder) vjoint(n, lvR, lvA int, types []*tinfo) {
+	f := fb.add("VjointWalk", []int{n}, [3]int{lvR, lvA, 0}, types, false)
+	f.stor[1] = "dsc"
+	f = fb.add("VcjointWalk", []int{n}, [3]int{lvR, lvA, 0}, types, false)
+	f.stor[0], f.stor[1] = "dsc", "dsc"
+}
+
+func (fb *famBuilder) mjoint(r, c, lvR, lvA int, types []*tinfo) {
+	fb.add("MjointWalk", []int{r, c}, [3]int{lvR, lvA, 0}, types, false)
+}
+
 func subtract(all []*tinfo, minus []*tinfo) []*tinfo {
 	r := []*tinfo{}
 	for _, t := range all {
@@ -696,6 +732,158 @@ func families(tier string) []*family {
 			fb.matHistFamilies(d[0], d[1], 2, false, 3, 0, 0, mainTypes)
 		}
 		fb.matHistFamilies(2, 2, 1, true, 2, 0, 0, mainTypes)
+	}
+
+	// ---- receiver lives: every operation with a container receiver ----
+	fb.lifeLen = 1
+	for n := 0; n <= 2; n++ {
+		fb.vectorFamilies(n, L(3, 1, 1), allTypes, false)
+		fb.vectorFamilies(n, L(2, 1, 1), realTypes, true)
+	}
+	if thorough {
+		fb.vectorFamilies(3, L(2, 1, 1), allTypes, false)
+		fb.vectorFamilies(3, L(2, 1, 1), realTypes, true)
+	} else {
+		fb.vectorFamilies(3, L(1, 0, 0), allTypes, false)
+	}
+	for n := 0; n <= 2; n++ {
+		for m := 0; m <= 2; m++ {
+			if thorough {
+				fb.matVecFamilies(n, m, 2, 1, allTypes, false)
+			} else {
+				fb.matVecFamilies(n, m, 2, 0, allTypes, false)
+			}
+			fb.matVecFamilies(n, m, 2, 0, realTypes, true)
+		}
+	}
+	for r := 0; r <= 2; r++ {
+		for c := 0; c <= 2; c++ {
+			switch {
+			case r*c <= 2:
+				fb.matrixFamilies(r, c, L(3, 1, 1), P(3, 1), allTypes, false)
+				fb.matrixFamilies(r, c, L(2, 1, 1), P(2, 1), realTypes, true)
+			case thorough:
+				fb.matrixFamilies(r, c, L(2, 1, 1), P(2, 1), allTypes, false)
+				fb.matrixFamilies(r, c, L(1, 0, 0), P(1, 0), realTypes, true)
+			default:
+				fb.matrixFamilies(r, c, L(1, 0, 0), P(1, 0), allTypes, false)
+				fb.matrixFamilies(r, c, L(1, 0, 0), P(1, 0), realTypes, true)
+			}
+		}
+	}
+	for n := 0; n <= 2; n++ {
+		for k := 0; k <= 2; k++ {
+			for m := 0; m <= 2; m++ {
+				if n*k*m <= 2 {
+					fb.mdotm(n, k, m, L(2, 1, 1), allTypes, false)
+				} else {
+					fb.mdotm(n, k, m, L(1, 0, 0), allTypes, false)
+				}
+			}
+		}
+	}
+	if thorough {
+		for _, d := range [][2]int{{2, 3}, {3, 2}} {
+			fb.matrixFamilies(d[0], d[1], L(1, 0, 0), P(1, 0), allTypes, false)
+		}
+	}
+	fb.lifeLen = 2
+	for n := 0; n <= 2; n++ {
+		fb.vectorFamilies(n, L(1, 0, 0), allTypes, false)
+	}
+	for r := 0; r <= 2; r++ {
+		for c := 0; c <= 2; c++ {
+			if r*c <= 2 || thorough {
+				fb.matrixFamilies(r, c, L(1, 0, 0), P(1, 0), allTypes, false)
+			}
+		}
+	}
+	if thorough {
+		fb.vectorFamilies(3, L(1, 0, 0), allTypes, false)
+		for n := 1; n <= 2; n++ {
+			for m := 1; m <= 2; m++ {
+				fb.matVecFamilies(n, m, 1, 0, allTypes, false)
+			}
+		}
+	}
+	fb.lifeLen = 0
+
+	// ---- concrete entry points (one storage class for all containers) ----
+	fb.conc = true
+	for n := 0; n <= 2; n++ {
+		fb.vectorFamilies(n, L(3, 3, 3), allTypes, false)
+		fb.vectorFamilies(n, L(3, 3, 3), realTypes, true)
+	}
+	if thorough {
+		fb.vectorFamilies(3, L(3, 3, 3), allTypes, false)
+		fb.vectorFamilies(3, L(2, 3, 3), realTypes, true)
+	} else {
+		fb.vectorFamilies(3, L(1, 2, 2), allTypes, false)
+		fb.vectorFamilies(3, L(1, 2, 2), realTypes, true)
+	}
+	for n := 0; n <= 2; n++ {
+		for m := 0; m <= 2; m++ {
+			if n*m <= 2 || thorough {
+				fb.matVecFamilies(n, m, 3, 3, allTypes, false)
+				fb.matVecFamilies(n, m, 2, 2, realTypes, true)
+			} else {
+				fb.matVecFamilies(n, m, 3, 2, allTypes, false)
+				fb.matVecFamilies(n, m, 1, 2, realTypes, true)
+			}
+		}
+	}
+	for r := 0; r <= 2; r++ {
+		for c := 0; c <= 2; c++ {
+			if r*c <= 2 || thorough {
+				fb.matrixFamilies(r, c, L(3, 3, 3), P(3, 3), allTypes, false)
+				fb.matrixFamilies(r, c, L(2, 2, 2), P(2, 2), realTypes, true)
+			} else {
+				fb.matrixFamilies(r, c, L(1, 2, 1), P(2, 3), allTypes, false)
+				fb.matrixFamilies(r, c, L(0, 2, 1), P(1, 2), realTypes, true)
+			}
+		}
+	}
+	for n := 0; n <= 2; n++ {
+		for k := 0; k <= 2; k++ {
+			for m := 0; m <= 2; m++ {
+				if n*k*m <= 2 {
+					fb.mdotm(n, k, m, L(3, 3, 3), allTypes, false)
+					fb.mdotm(n, k, m, L(2, 2, 2), realTypes, true)
+				} else {
+					fb.mdotm(n, k, m, L(1, 2, 1), allTypes, false)
+					fb.mdotm(n, k, m, L(0, 2, 1), realTypes, true)
+				}
+			}
+		}
+	}
+	fb.conc = false
+
+	// ---- joint-iterator traversals with clone look-ahead ----
+	for n := 0; n <= 2; n++ {
+		fb.vjoint(n, 3, 3, allTypes)
+	}
+	if thorough {
+		fb.vjoint(3, 3, 3, allTypes)
+		fb.vjoint(4, 1, 2, mainTypes)
+	} else {
+		fb.vjoint(3, 1, 2, allTypes)
+	}
+	for r := 0; r <= 2; r++ {
+		for c := 0; c <= 2; c++ {
+			switch {
+			case r*c <= 2:
+				fb.mjoint(r, c, 3, 3, allTypes)
+			case thorough:
+				fb.mjoint(r, c, 2, 2, allTypes)
+			default:
+				fb.mjoint(r, c, 1, 1, allTypes)
+			}
+		}
+	}
+	if thorough {
+		for _, d := range [][2]int{{1, 3}, {3, 1}, {2, 3}, {3, 2}} {
+			fb.mjoint(d[0], d[1], 1, 1, allTypes)
+		}
 	}
 
 	// ---- Equals: tiny differences, several epsilons, infinities and NaN ----
